@@ -447,25 +447,58 @@ def op_set_params(s, a):
     note_update(s)
 
 
+def op_param_probe(s, a):
+    """query -> parameter update -> the *same* query (same cache key): the second answer must describe the new parameters"""
+    seed, which, picks, bits = a
+    if s.cls != "Circuit" or s.contract is True:
+        raise Reject("parametrized gates need the lazy exact simulator")
+    if not s.param_gates:
+        # construct the situation: apply one parametrized RY (core label 10 -> index 30) first
+        op_gate(s, (30, seed, picks, 0, 1, True))
+        if not s.param_gates:
+            raise Reject("could not apply a parametrized gate")
+    which = which % 4
+    for rnd in range(2):
+        if which == 0:
+            q_amplitude(s, (bits, 0))
+        elif which == 1:
+            q_partial_trace(s, (picks, 1))
+        elif which == 2:
+            q_local_expectation(s, (picks, 1, seed, False))
+        else:
+            q_marginal(s, (picks, 0, 0, 0))
+        if rnd == 0:
+            op_set_params(s, (seed, 0))
+    s.ops.add("param_probe")
+
+
 def op_copy(s, a):
     (swap,) = a
     c = s.circ.copy()
     if swap:
-        s.snap = (s.circ, s.model.dense().copy())
+        s.snap = (s.circ, s.model.dense().copy(), len(s.gates))
         s.circ = c
     else:
-        s.snap = (c, s.model.dense().copy())
+        s.snap = (c, s.model.dense().copy(), len(s.gates))
     s.ops.add("copy")
 
 
 def op_check_snapshot(s, a):
     if s.snap is None:
         raise Reject("no snapshot")
-    c, ref = s.snap
+    c, ref, ngates = s.snap
     got = np.asarray(c.to_dense(optimize="greedy")).reshape(-1)
     e = rel_err(got, ref, floor=1.0)
     if not e <= s.tol:
         raise Violation("copy-aliased", cls=s.cls, err=e)
+    if c.num_gates != ngates:
+        raise Violation("copy-aliased", cls=s.cls, what="gate list", got=c.num_gates, want=ngates)
+    # a light-cone based query on the held copy must still describe the state at the time of the copy
+    q = a[0] % s.N
+    rho = np.asarray(c.partial_trace([q], optimize="greedy"))
+    e2 = rel_err(rho, ptrace(ref, [2] * s.N, [q]), floor=1.0)
+    if not e2 <= max(s.tol, 1e-7):
+        raise Violation("copy-aliased", cls=s.cls, what="partial_trace", err=e2)
     s.ops.add("check_snapshot")
 
 
@@ -661,6 +694,7 @@ OPS = {
     "gate": (st.tuples(st.integers(0, 5000), SEED, PICKS, st.sampled_from([0, 0, 0, 1, 2]), I, B), op_gate),
     "gate_raw": (st.tuples(SEED, PICKS, I, st.sampled_from([0, 0, 1])), op_gate_raw),
     "set_params": (st.tuples(SEED, I), op_set_params),
+    "param_probe": (st.tuples(SEED, I, PICKS, st.lists(I, max_size=5)), op_param_probe),
     "copy": (st.tuples(B), op_copy),
     "check_snapshot": (st.tuples(I), op_check_snapshot),
     "to_dense": (st.tuples(B, I, I), q_to_dense),
@@ -684,6 +718,10 @@ def make_spec(cls):
     pre = {}
     if cls != "Circuit":
         pre["set_params"] = lambda s: False
+        pre["param_probe"] = lambda s: False
+    else:
+        pre["param_probe"] = lambda s: s.contract is not True
+        pre["set_params"] = lambda s: bool(s.param_gates)
     if cls != "Circuit":
         pre["uni"] = lambda s: False
     if cls in ("Circuit", "CircuitDense"):
